@@ -20,4 +20,5 @@ let table : (Stdlib.String.t * (z list -> z list)) list = [
   "c04d", c04d_entry;
   "c04s", c04s_entry;
   "c06", c06_entry;
+  "c14", c14_entry;
 ]
